@@ -1,7 +1,7 @@
 (* C06 - multi-hop packets: at-most-once delivery and forwarding, shrinking hop budget.
    Audited statements only; proofs in Proofs/LocTProofs.v and Proofs/RouterProofs.v. *)
 From FlexVerif Require Import Base.Prelude Base.Bits Model.LocT Model.Wire Model.Router Proofs.LocTProofs Proofs.RouterProofs
-  Proofs.ForwardCopy Proofs.FloodProofs.
+  Proofs.ForwardCopy Proofs.ForwardCopyGeo Proofs.FloodProofs.
 
 (* -- duplicate detection: once (SO, SN) was accepted, a duplicate is rejected for as long as fewer than
       itsGnDPLLength other sequence numbers of SO have been accepted since -- *)
@@ -75,8 +75,9 @@ Proof. exact gbc_cbf_buffered. Qed.
 Print Assumptions C06_cbf_buffered_copy_has_rhl_minus_1.
 
 (* -- a forwarded TSB packet is, octet for octet, the received packet with RHL - 1, for every conformant
-      packet (reserved bits zero; re-encoding the decoded headers is the identity).  For the other packet
-      types this octet-level clause is checked by the oracle and the correspondence, see design/C06.md -- *)
+      packet (reserved bits zero; re-encoding the decoded headers is the identity).  The same is proved below for
+      GeoBroadcast / GeoAnycast (incl. the copy kept in the CBF buffer) and for GeoUnicast (where the 20 octets of the
+      destination position vector are the ones refresh_de chooses); LS packets: oracle and correspondence -- *)
 Theorem C06_forwarded_tsb_is_octet_copy : forall m s now g pkt bv cv p,
   wf_bytes pkt = true -> (40 <= length pkt)%nat ->
   dec_basic pkt = Some bv -> dec_common (skipn 4 pkt) = Some cv -> arg 1 cv = 5 -> arg 2 cv = 1 ->
@@ -85,6 +86,48 @@ Theorem C06_forwarded_tsb_is_octet_copy : forall m s now g pkt bv cv p,
   p = firstn 3 pkt ++ [arg 5 bv - 1] ++ skipn 4 pkt.
 Proof. exact tsb_forward_is_copy. Qed.
 Print Assumptions C06_forwarded_tsb_is_octet_copy.
+
+Theorem C06_forwarded_geo_is_octet_copy : forall m s now g pkt bv cv p,
+  wf_bytes pkt = true -> dec_basic pkt = Some bv -> dec_common (skipn 4 pkt) = Some cv -> (arg 1 cv = 4 \/ arg 1 cv = 3) ->
+  common_conformant (skipn 4 pkt) -> lpv_conformant (skipn 16 pkt) ->
+  In (OFwd p) (snd (rx m s now g pkt)) ->
+  p = firstn 3 pkt ++ [arg 5 bv - 1] ++ skipn 4 pkt.
+Proof. exact geo_forward_is_copy. Qed.
+Print Assumptions C06_forwarded_geo_is_octet_copy.
+
+Theorem C06_cbf_buffered_is_reassembly : forall m s now g bv cv body k p,
+  In (k, p) (s_cbf (fst (rx_gbc m s now g bv cv body))) ->
+  In (k, p) (s_cbf s) \/ exists h, dec_gbc body = Some h /\ p = gbc_packet bv cv h (skipn 44 body) (arg 5 bv - 1).
+Proof. exact gbc_cbf_shape. Qed.
+Print Assumptions C06_cbf_buffered_is_reassembly.
+
+Theorem C06_reassembled_geo_is_octet_copy : forall pkt bv cv h,
+  wf_bytes pkt = true -> dec_basic pkt = Some bv -> dec_common (skipn 4 pkt) = Some cv -> dec_gbc (skipn 12 pkt) = Some h ->
+  common_conformant (skipn 4 pkt) -> lpv_conformant (skipn 16 pkt) -> 1 <= arg 5 bv ->
+  gbc_packet bv cv h (skipn 44 (skipn 12 pkt)) (arg 5 bv - 1) = firstn 3 pkt ++ [arg 5 bv - 1] ++ skipn 4 pkt.
+Proof. exact gbc_packet_is_copy. Qed.
+Print Assumptions C06_reassembled_geo_is_octet_copy.
+
+Theorem C06_forwarded_guc_octets : forall m s now g pkt bv cv p,
+  wf_bytes pkt = true -> dec_basic pkt = Some bv -> dec_common (skipn 4 pkt) = Some cv -> arg 1 cv = 2 ->
+  common_conformant (skipn 4 pkt) -> lpv_conformant (skipn 16 pkt) ->
+  In (OFwd p) (snd (rx m s now g pkt)) ->
+  exists h t, dec_guc (skipn 12 pkt) = Some h /\
+    rx_mh (s_loct s) (firstn 9 (skipn 2 h)) (arg 0 h) now (m_life_ms m) (m_dpl_len m) = Some t /\
+    p = firstn 3 pkt ++ [arg 5 bv - 1] ++ firstn 36 (skipn 4 pkt) ++ enc_spv (refresh_de t (skipn 11 h)) ++ skipn 60 pkt.
+Proof. exact guc_forward_octets. Qed.
+Print Assumptions C06_forwarded_guc_octets.
+
+Theorem C06_forwarded_guc_is_octet_copy_without_refresh : forall m s now g pkt bv cv p h t,
+  wf_bytes pkt = true -> (60 <= length pkt)%nat -> dec_basic pkt = Some bv -> dec_common (skipn 4 pkt) = Some cv -> arg 1 cv = 2 ->
+  common_conformant (skipn 4 pkt) -> lpv_conformant (skipn 16 pkt) -> spv_conformant (firstn 20 (skipn 40 pkt)) ->
+  In (OFwd p) (snd (rx m s now g pkt)) ->
+  dec_guc (skipn 12 pkt) = Some h ->
+  rx_mh (s_loct s) (firstn 9 (skipn 2 h)) (arg 0 h) now (m_life_ms m) (m_dpl_len m) = Some t ->
+  refresh_de t (skipn 11 h) = skipn 11 h ->
+  p = firstn 3 pkt ++ [arg 5 bv - 1] ++ skipn 4 pkt.
+Proof. exact guc_forward_is_copy. Qed.
+Print Assumptions C06_forwarded_guc_is_octet_copy_without_refresh.
 
 (* -- unicast: the destination position vector is refreshed only by a strictly newer one of a neighbour -- *)
 Theorem C06_de_pv_refreshed_only_by_newer : forall t de, refresh_de t de = de \/
